@@ -24,7 +24,7 @@ from .. import mir, pred, rules
 from ..mir import fmt, walk, const_val
 
 EXPLANATION = __doc__
-TECHNIQUE = "value-graph equality (abstract interpretation of MIR in a hash-consed bit-level term domain with linear-combination, parity and truth-table normal forms) against specification graphs; MIR dataflow rules: linear-form lock-step of loop indices, must-set typestate, call-order dominance, sibling canonical-body comparison, definite-zeroing of DRG buffers"
+TECHNIQUE = "value-graph equality (abstract interpretation of MIR in a hash-consed bit-level term domain with linear-combination, parity and truth-table normal forms) against specification graphs; MIR dataflow rules: linear-form lock-step of loop indices, must-set typestate, call-order dominance, sibling canonical-body comparison, definite-zeroing of DRG buffers; bounded shape evaluation (concrete offsets / lengths derived from the code's own length constants, symbolic contents, opaque recorded leaf calls) of the buffering loops (process_mut of all five ciphers)"
 
 CIPHERS = [
     ("chacha20::ChaCha", "increment$", True),
